@@ -94,11 +94,12 @@ def pick_seams(desc, n, doctable, rng):
 def make_scripts(doctable, rng, quick):
     """[(script, variants)] - script: per thread a list of calls with their seam points"""
     a, b = (4, 3) if quick else (6, 5)
+    c = 2 if quick else 5
     pairs = [
-        (D("loads", 1, True), D("loads", 1, True), a, a, "same"),
-        (D("loads", 1, True), D("loads", 4, True), b, b, "diff"),
-        (D("loads", 3, True), D("loads", 5, True), b, b, "diff"),
-        (D("loads", 1, True), D("loads", 4, False), b, b, "diff"),
+        (D("loads", 1, True), D("loads", 1, True), a - 1 if quick else a, a, "same"),
+        (D("loads", 1, True), D("loads", 4, True), c, b, "diff"),
+        (D("loads", 3, True), D("loads", 5, True), b, c, "diff"),
+        (D("loads", 1, True), D("loads", 4, False), b, c, "diff"),
         (D("loads", 4, True), D("dumps", 4), b, 3, "same"),
         (D("loads", 5, True), D("validate", 5, ver=76), b, b, "same"),
         (D("dumps", 1), D("dumps", 1), 3, 3, "same"),
@@ -312,8 +313,10 @@ def _run(ck, seed, quick, pool, nproc, t0):
 
     # ---- collect purity, judge with TraceCalls.tla
     records, cases, loaded = [], {}, 0
+    cpu = {"purity": 0.0, "reuse": 0.0, "schedules": 0.0, "stress": 0.0}
     for j in pur_jobs:
         res = j.get(1800)
+        cpu["purity"] += res["cpu"]
         records += res["records"]
         cases.update(res["cases"])
         loaded += res["loaded"]
@@ -357,6 +360,7 @@ def _run(ck, seed, quick, pool, nproc, t0):
     nreuse, classes = 0, set()
     for j in reuse_async:
         res = j.get(1800)
+        cpu["reuse"] += res["cpu"]
         nreuse += res["n"]
         classes |= {tuple(c) for c in res["classes"]}
         for sig, what, case in res["viol"]:
@@ -370,6 +374,7 @@ def _run(ck, seed, quick, pool, nproc, t0):
     nsched, failures, notes, seams_seen = 0, [], [], {}
     for sid, job, a in sched_async:
         res = a.get(1800)
+        cpu["schedules"] += res["cpu"]
         nsched += res["n"]
         failures += res["failures"]
         notes += res["notes"]
@@ -389,6 +394,7 @@ def _run(ck, seed, quick, pool, nproc, t0):
     stress_counts = {}
     for a in stress_async:
         res = a.get(1800)
+        cpu["stress"] += res["cpu"]
         if res["stuck"]:
             raise common.MachineryFailure("stress threads did not finish")
         for k, v in res["counts"].items():
@@ -406,6 +412,7 @@ def _run(ck, seed, quick, pool, nproc, t0):
         "schedules_per_script": {str(k): len(v) for k, v in by_sid.items()},
         "stress_calls": stress_counts, "stress_threads": 16, "stress_seconds": secs,
         "negative_configs_rejected": [n for n, _, _ in NEGATIVES],
+        "cpu_s": {k: round(v, 1) for k, v in cpu.items()}, "tlc_wall_s": round(sum(t.get("wall_s", 0) for t in ck.tlc), 1),
         "seams": "lark InteractiveParser.iter_parse / Lark.parse_interactive, Parser.parse/_assign_comments, "
                  "MapfileToDict.transform/__setattr__, PrettyPrinter.pprint, Validator.validate/get_expanded_schema/"
                  "get_schema_file/get_schema_validator/get_versioned_schema/get_versioned_properties/convert_lowercase "
